@@ -708,13 +708,25 @@ def replay(pid, path, work):
         for k in ("pairs", "data", "rules"):
             if k in op:
                 op[k] = [tuple(x) for x in op[k]]
-    tr = runner.run_fixed(body["backend"], body["def"], rules, ops, hook=hook, tid=0, src="replay")
+    if any(o["op"] == "CoopBegin" for o in ops):
+        import coop
+        for o in ops:
+            if o["op"] == "CoopBegin":
+                for g in o["gens"]:
+                    if g["kind"] == "crawl":
+                        g["data"] = [tuple(x) for x in g["data"]]
+        tr = coop.replay_coop(body["backend"], body["def"], rules, ops)
+    else:
+        tr = runner.run_fixed(body["backend"], body["def"], rules, ops, hook=hook, tid=0, src="replay")
     val = runner.validate([tr], os.path.join(work, "tv"))
     viol, hits, drift = judge(body["property"], cfg, [tr], val, load_known())
     for v in viol:
         for step, clause in v["clauses"]:
             op = tr["steps"][step - 1]["op"] if 0 < step <= len(tr["steps"]) else "?"
             print("VIOLATION property=%s replay=%s clause=%s step=%d op=%s" % (body["property"], path, clause, step, op))
+    for h in hits:
+        print("KNOWN-FINDING: property=%s %s (clause %s at step %d of this replay)"
+              % (body["property"], h["finding"], h["clause"], h["step"]))
     if not viol:
         print("replay: no violation of %s on the current tree (all verdicts: %s)" % (body["property"], val["verdicts"]))
     return 1 if viol else 0
